@@ -2,6 +2,10 @@
 namespace Rs
 /-- number of bytes of the UTF-8 encoding of a code point -/
 def utf8Size (c : Nat) : Nat := if c < 0x80 then 1 else if c < 0x800 then 2 else if c < 0x10000 then 3 else 4
+/-- `str::len()`: the number of bytes of the UTF-8 encoding -/
+def utf8Len : List Nat → Nat
+  | [] => 0
+  | c :: cs => utf8Size c + utf8Len cs
 /-- `str::is_char_boundary(k)`: byte offset `k` is the start of a character or the end of the string -/
 def isCharBoundary : List Nat → Nat → Bool
   | _, 0 => true
